@@ -53,6 +53,25 @@ CHECKS = {
   "note": "Trusted: Coq kernel; CPython Fraction arithmetic; adapters. 'note followed only by continuations' and positivity of the pieces are "
           "checked on the implementation by the oracle, not proved.",
  },
+ "C19": {
+  "text": "Theorems. Voice leading (the random search is not modelled; its result, the delta matrix, is universally quantified and read from "
+          "the implementation on every run, where the mask of the fixed voices is checked): get_score changes nothing but value/octave of "
+          "the first note of each part (chords, parts, durations, dynamics, note systems, later notes kept); value+delta folded modulo the "
+          "system size with octave carry stays inside the system and is pitch-neutral for 3-, 4- and n-tone systems; the optimiser's own "
+          "pitch formula equals the rendered pitch; c-notes (b-notes) still sound chord (voicing) tones; a zero delta keeps the pitch; the "
+          "octave normalisation terminates, only changes chord octaves, leaves every bass in (-6, 6], and moves fixed voices that must keep "
+          "their octave back by exactly the chord's shift, note by note pitch-neutral (absolute notes untouched). Parsimonious leading "
+          "(triads/sevenths without modifiers, every degree, mode, tonic, octave, previous bass in Z): same degree/tonality/family, same chord "
+          "tones whole octaves apart, bass moves by at most 3 semitones (0..5 in the requested direction), first chord and parts kept, "
+          "chained along the progression. Counterpoint: durations, dynamics, rests and ties kept, notes become scale notes at most 4 steps "
+          "away. Two defects repaired (absolute notes of fixed voices shifted; method='random' ignored fixed voices).",
+  "note": "Partial: reproducibility for a seed and the counterpoint on whole scores (projection onto one chord and back) are decided by the "
+          "oracle on the implementation, not by a theorem; with change_octave_fixed=True (the default) fixed voices move by whole octaves "
+          "with their chord, which the statement's 'up to the octave normalisation' is read to allow. Trusted: Coq kernel; gen_tables; "
+          "numpy RandomState; project_on_rhythm (subject columns read from the implementation); adapters. Not explored: single-chord scores "
+          "(voices_optim raises on an empty movement matrix), relative notes and drums (KeyError in VoiceLeading.init), chords with "
+          "replacements/additions in parsimonious leading, c/b notes in counterpoint (raise).",
+ },
  "C20": {
   "text": "Theorems: Note.__eq__, Tonality.__eq__, Melody.__eq__ (equality of printed code), Chord.__eq__ (dict equality of parts, any "
           "order) and Score.__eq__ are reflexive, symmetric and transitive; equal notes have the same hashed tuple, equal tonalities the "
